@@ -59,6 +59,16 @@ def points(tier):
                         for noise in (None, ["blank", 20], ["comment", 20], ["blank", 19], ["blank", r], ["comment", r]):
                             pts.append({"kind": "unwrapped", "d": d, "c": c, "r": r, "engine": eng, "sign": sign,
                                         "noise": noise})
+            # an indented '#' comment after the first row of every small unwrapped shape (row counts r+1 dividing r*c included)
+            for d in (1, 2, 3, 4, 6, 8):
+                for r in (1, 2, 3, 5):
+                    for noise in (["icomment", 1], ["icomment", r], ["tcomment", 1]):
+                        pts.append({"kind": "unwrapped", "d": d, "c": d, "r": r, "engine": eng, "sign": sign, "noise": noise})
+            # comma-delimited data with an empty cell column (the cell is empty in every row): no other column may move
+            for c in (3, 4):
+                for r in (2, 3):
+                    for k in range(1, c):
+                        pts.append({"kind": "comma-empty", "d": c, "c": c, "r": r, "engine": eng, "sign": sign, "noise": None, "empty": k})
             # mnemonics that are themselves integers equal to another curve's position (a lookup by
             # position must never be answered by name)
             for d in (2, 3, 4, 5):
@@ -95,13 +105,16 @@ def build_text(pt):
         # curve j (j >= 1) is named after the position of the next curve, the last one after position 1; curve 0 after position d-1
         curves = [((str((j % max(d - 1, 1)) + 1) if j else str(max(d - 1, 0))), u, v, de) for j, (_, u, v, de) in enumerate(curves)]
     wrap = "YES" if pt["kind"] == "wrapped" else "NO"
-    secs = [lasgen.version_section("2.0", wrap), lasgen.well_section("-999.25")]
+    secs = [lasgen.version_section("2.0", wrap, dlm="COMMA" if pt["kind"] == "comma-empty" else None), lasgen.well_section("-999.25")]
     secs.append(lasgen.curve_section(curves))
     lines = ["~ASCII"]
     n_line = 0
     for i in range(r):
         toks = [str(cell(i, j, pt["sign"])) for j in range(c)]
-        if pt["kind"] == "wrapped":
+        if pt["kind"] == "comma-empty":
+            toks[pt["empty"]] = ""
+            lines.append(",".join(toks))
+        elif pt["kind"] == "wrapped":
             k = 0
             for size in pt["comp"]:
                 lines.append(" ".join(toks[k:k + size]))
@@ -110,7 +123,7 @@ def build_text(pt):
             lines.append("  ".join(toks))
         n_line += 1
         if pt["noise"] and pt["noise"][1] == n_line:
-            lines.append("" if pt["noise"][0] == "blank" else "# comment")
+            lines.append({"blank": "", "comment": "# comment", "icomment": "   # indented comment", "tcomment": "\t# c"}[pt["noise"][0]])
     secs.append(lines)
     return lasgen.render(secs), curves
 
@@ -118,7 +131,7 @@ def build_text(pt):
 def check_point(pt):
     text, curves = build_text(pt)
     d, c, r = pt["d"], pt["c"], pt["r"]
-    nontriv = (d != c) or pt["kind"] == "wrapped" or r >= 19
+    nontriv = (d != c) or pt["kind"] != "unwrapped" or r >= 19 or bool(pt["noise"])
 
     def V(clause, expected, observed, sig=None):
         return {"clause": clause, "sig": sig or classify(pt, clause), "witness": {"point": pt, "text": text},
@@ -154,6 +167,8 @@ def check_point(pt):
             break
     for j in range(max(c, d)):
         col = np.asarray(cur[j].data)
+        if pt["kind"] == "comma-empty" and j == pt["empty"]:
+            continue  # what an empty cell becomes is not specified; the other columns must stay in place
         if j < c:
             exp = [float(cell(i, j, pt["sign"])) for i in range(r)]
             try:
@@ -167,7 +182,7 @@ def check_point(pt):
             if not (col.dtype.kind == "f" and np.all(np.isnan(col))):
                 vio.append(V("missing-column-not-nan", {"curve": j, "values": "all NaN"}, col.tolist()))
                 break
-    if not vio and lens and len(set(lens)) == 1:
+    if not vio and lens and len(set(lens)) == 1 and pt["kind"] != "comma-empty":
         try:
             data = las.data
             for j in range(min(c, len(cur))):
